@@ -1,4 +1,5 @@
-From Coq Require Import QArith Lqa.
+From Coq Require Import QArith Lqa List.
+Import ListNotations.
 Open Scope Q_scope.
 Record Stat := mkStat {
   STR_ : Q;
@@ -57,6 +58,92 @@ Definition add (a b : Stat) : Stat := mkStat
   ((MHP_multiplier_ a) + (MHP_multiplier_ b))
   ((MMP_multiplier_ a) + (MMP_multiplier_ b))
   ((elemental_resistance_ a) + (elemental_resistance_ b)).
+Definition iadd (a b : Stat) : Stat := mkStat
+  ((STR_ a) + (STR_ b))
+  ((LUK_ a) + (LUK_ b))
+  ((INT_ a) + (INT_ b))
+  ((DEX_ a) + (DEX_ b))
+  ((STR_multiplier_ a) + (STR_multiplier_ b))
+  ((LUK_multiplier_ a) + (LUK_multiplier_ b))
+  ((INT_multiplier_ a) + (INT_multiplier_ b))
+  ((DEX_multiplier_ a) + (DEX_multiplier_ b))
+  ((STR_static_ a) + (STR_static_ b))
+  ((LUK_static_ a) + (LUK_static_ b))
+  ((INT_static_ a) + (INT_static_ b))
+  ((DEX_static_ a) + (DEX_static_ b))
+  ((attack_power_ a) + (attack_power_ b))
+  ((magic_attack_ a) + (magic_attack_ b))
+  ((attack_power_multiplier_ a) + (attack_power_multiplier_ b))
+  ((magic_attack_multiplier_ a) + (magic_attack_multiplier_ b))
+  ((critical_rate_ a) + (critical_rate_ b))
+  ((critical_damage_ a) + (critical_damage_ b))
+  ((boss_damage_multiplier_ a) + (boss_damage_multiplier_ b))
+  ((damage_multiplier_ a) + (damage_multiplier_ b))
+  ((final_damage_multiplier_ a) + ((final_damage_multiplier_ b) + (((1#100) * (final_damage_multiplier_ a)) * (final_damage_multiplier_ b))))
+  ((100#1) - ((1#100) * (((100#1) - (ignored_defence_ a)) * ((100#1) - (ignored_defence_ b)))))
+  ((MHP_ a) + (MHP_ b))
+  ((MMP_ a) + (MMP_ b))
+  ((MHP_multiplier_ a) + (MHP_multiplier_ b))
+  ((MMP_multiplier_ a) + (MMP_multiplier_ b))
+  ((elemental_resistance_ a) + (elemental_resistance_ b)).
+Definition stack (a : Stat) (n : Q) : Stat := mkStat
+  ((STR_ a) * n)
+  ((LUK_ a) * n)
+  ((INT_ a) * n)
+  ((DEX_ a) * n)
+  ((STR_multiplier_ a) * n)
+  ((LUK_multiplier_ a) * n)
+  ((INT_multiplier_ a) * n)
+  ((DEX_multiplier_ a) * n)
+  ((STR_static_ a) * n)
+  ((LUK_static_ a) * n)
+  ((INT_static_ a) * n)
+  ((DEX_static_ a) * n)
+  ((attack_power_ a) * n)
+  ((magic_attack_ a) * n)
+  ((attack_power_multiplier_ a) * n)
+  ((magic_attack_multiplier_ a) * n)
+  ((critical_rate_ a) * n)
+  ((critical_damage_ a) * n)
+  ((boss_damage_multiplier_ a) * n)
+  ((damage_multiplier_ a) * n)
+  ((final_damage_multiplier_ a) * n)
+  ((ignored_defence_ a) * n)
+  ((MHP_ a) * n)
+  ((MMP_ a) * n)
+  ((MHP_multiplier_ a) * n)
+  ((MMP_multiplier_ a) * n)
+  ((elemental_resistance_ a) * n).
+Definition fd_acc (l : list Stat) : Q := fold_left (fun acc s => acc + final_damage_multiplier_ s * acc * (1#100)) l 1.
+Definition def_acc (l : list Stat) : Q := fold_left (fun acc s => acc - acc * (1#100) * ignored_defence_ s) l 1.
+Definition sum (l : list Stat) : Stat := mkStat
+  (fold_left (fun acc s => acc + STR_ s) l 0)
+  (fold_left (fun acc s => acc + LUK_ s) l 0)
+  (fold_left (fun acc s => acc + INT_ s) l 0)
+  (fold_left (fun acc s => acc + DEX_ s) l 0)
+  (fold_left (fun acc s => acc + STR_multiplier_ s) l 0)
+  (fold_left (fun acc s => acc + LUK_multiplier_ s) l 0)
+  (fold_left (fun acc s => acc + INT_multiplier_ s) l 0)
+  (fold_left (fun acc s => acc + DEX_multiplier_ s) l 0)
+  (fold_left (fun acc s => acc + STR_static_ s) l 0)
+  (fold_left (fun acc s => acc + LUK_static_ s) l 0)
+  (fold_left (fun acc s => acc + INT_static_ s) l 0)
+  (fold_left (fun acc s => acc + DEX_static_ s) l 0)
+  (fold_left (fun acc s => acc + attack_power_ s) l 0)
+  (fold_left (fun acc s => acc + magic_attack_ s) l 0)
+  (fold_left (fun acc s => acc + attack_power_multiplier_ s) l 0)
+  (fold_left (fun acc s => acc + magic_attack_multiplier_ s) l 0)
+  (fold_left (fun acc s => acc + critical_rate_ s) l 0)
+  (fold_left (fun acc s => acc + critical_damage_ s) l 0)
+  (fold_left (fun acc s => acc + boss_damage_multiplier_ s) l 0)
+  (fold_left (fun acc s => acc + damage_multiplier_ s) l 0)
+  ((fd_acc l - 1) * 100)
+  (100 * (1 - def_acc l))
+  (fold_left (fun acc s => acc + MHP_ s) l 0)
+  (fold_left (fun acc s => acc + MMP_ s) l 0)
+  (fold_left (fun acc s => acc + MHP_multiplier_ s) l 0)
+  (fold_left (fun acc s => acc + MMP_multiplier_ s) l 0)
+  (fold_left (fun acc s => acc + elemental_resistance_ s) l 0).
 Definition seq (a b : Stat) : Prop :=
   STR_ a == STR_ b /\
   LUK_ a == LUK_ b /\
@@ -85,10 +172,65 @@ Definition seq (a b : Stat) : Prop :=
   MHP_multiplier_ a == MHP_multiplier_ b /\
   MMP_multiplier_ a == MMP_multiplier_ b /\
   elemental_resistance_ a == elemental_resistance_ b.
-Lemma add_comm a b : seq (add a b) (add b a).
-Proof. unfold seq, add; cbn. repeat split; ring. Qed.
-Lemma add_assoc a b c : seq (add (add a b) c) (add a (add b c)).
-Proof. unfold seq, add; cbn. repeat split; ring. Qed.
-Lemma add_0_r a : seq (add a zero) a.
-Proof. unfold seq, add, zero; cbn. repeat split; ring. Qed.
-Print Assumptions add_assoc.
+
+Lemma add_comm a b : seq (add a b) (add b a). Proof. unfold seq, add; cbn. repeat split; ring. Qed.
+Lemma add_assoc a b c : seq (add (add a b) c) (add a (add b c)). Proof. unfold seq, add; cbn. repeat split; ring. Qed.
+Lemma add_0_r a : seq (add a zero) a. Proof. unfold seq, add, zero; cbn. repeat split; ring. Qed.
+Lemma add_0_l a : seq (add zero a) a. Proof. unfold seq, add, zero; cbn. repeat split; ring. Qed.
+Lemma iadd_eq_add a b : seq (iadd a b) (add a b). Proof. unfold seq, iadd, add; cbn. repeat split; ring. Qed.
+Lemma stack_1 a : seq (stack a 1) a. Proof. unfold seq, stack; cbn. repeat split; ring. Qed.
+Lemma fd_multiplicative a b : 1 + (1#100) * final_damage_multiplier_ (add a b) == (1 + (1#100) * final_damage_multiplier_ a) * (1 + (1#100) * final_damage_multiplier_ b).
+Proof. unfold add; cbn. ring. Qed.
+Lemma ied_multiplicative a b : 100 - ignored_defence_ (add a b) == (1#100) * ((100 - ignored_defence_ a) * (100 - ignored_defence_ b)).
+Proof. unfold add; cbn. ring. Qed.
+
+(* ---- sum = left fold of add from zero (so any order of summation agrees, by add_comm/add_assoc) ---- *)
+Definition fold_add (l : list Stat) (acc : Stat) : Stat := fold_left add l acc.
+
+Lemma fold_plus_ext (f : Stat -> Q) l : forall a a', a == a' -> fold_left (fun acc s => acc + f s) l a == fold_left (fun acc s => acc + f s) l a'.
+Proof. induction l as [|x l IH]; intros a a' H; cbn [fold_left]; [exact H|]. apply IH. rewrite H. reflexivity. Qed.
+
+Ltac field_fold f_ :=
+  let l := fresh "l" in let IH := fresh "IH" in
+  intros l; induction l as [|x l IH]; intros acc; cbn [fold_left fold_add]; [reflexivity|];
+  unfold fold_add in IH; rewrite <- IH; apply fold_plus_ext; unfold add; cbn; ring.
+
+Lemma sum_STR : forall l acc, fold_left (fun a s => a + STR_ s) l (STR_ acc) == STR_ (fold_add l acc).
+Proof. field_fold STR_. Qed.
+Lemma sum_MHP : forall l acc, fold_left (fun a s => a + MHP_ s) l (MHP_ acc) == MHP_ (fold_add l acc).
+Proof. field_fold MHP_. Qed.
+
+Lemma fd_ext l : forall a a', a == a' -> fold_left (fun acc s => acc + final_damage_multiplier_ s * acc * (1#100)) l a == fold_left (fun acc s => acc + final_damage_multiplier_ s * acc * (1#100)) l a'.
+Proof. induction l as [|x l IH]; intros a a' H; cbn [fold_left]; [exact H|]. apply IH. rewrite H. reflexivity. Qed.
+Lemma sum_fd : forall l acc, fold_left (fun a s => a + final_damage_multiplier_ s * a * (1#100)) l (1 + (1#100) * final_damage_multiplier_ acc)
+                   == 1 + (1#100) * final_damage_multiplier_ (fold_add l acc).
+Proof.
+  intros l; induction l as [|x l IH]; intros acc; cbn [fold_left fold_add]; [reflexivity|].
+  unfold fold_add in IH. rewrite <- IH. apply fd_ext. unfold add; cbn. ring.
+Qed.
+Theorem sum_fd_eq l : final_damage_multiplier_ (sum l) == final_damage_multiplier_ (fold_add l zero).
+Proof.
+  unfold sum; cbn [final_damage_multiplier_]. unfold fd_acc.
+  pose proof (sum_fd l zero) as H. cbn [final_damage_multiplier_ zero] in H.
+  assert (E : fold_left (fun acc s => acc + final_damage_multiplier_ s * acc * (1 # 100)) l 1 == 1 + (1 # 100) * final_damage_multiplier_ (fold_add l zero)).
+  { rewrite <- H. apply fd_ext. ring. }
+  rewrite E. ring.
+Qed.
+
+Lemma def_ext l : forall a a', a == a' -> fold_left (fun acc s => acc - acc * (1#100) * ignored_defence_ s) l a == fold_left (fun acc s => acc - acc * (1#100) * ignored_defence_ s) l a'.
+Proof. induction l as [|x l IH]; intros a a' H; cbn [fold_left]; [exact H|]. apply IH. rewrite H. reflexivity. Qed.
+Lemma sum_def : forall l acc, fold_left (fun a s => a - a * (1#100) * ignored_defence_ s) l (1 - (1#100) * ignored_defence_ acc)
+                   == 1 - (1#100) * ignored_defence_ (fold_add l acc).
+Proof.
+  intros l; induction l as [|x l IH]; intros acc; cbn [fold_left fold_add]; [reflexivity|].
+  unfold fold_add in IH. rewrite <- IH. apply def_ext. unfold add; cbn. ring.
+Qed.
+Theorem sum_ied_eq l : ignored_defence_ (sum l) == ignored_defence_ (fold_add l zero).
+Proof.
+  unfold sum; cbn [ignored_defence_]. unfold def_acc.
+  pose proof (sum_def l zero) as H. cbn [ignored_defence_ zero] in H.
+  assert (E : fold_left (fun acc s => acc - acc * (1 # 100) * ignored_defence_ s) l 1 == 1 - (1 # 100) * ignored_defence_ (fold_add l zero)).
+  { rewrite <- H. apply def_ext. ring. }
+  rewrite E. ring.
+Qed.
+Print Assumptions sum_fd_eq.
